@@ -362,7 +362,7 @@ class AlterModifyColumns:
 # ------------------------------------------------------------------ the same effects for a column list of ANY length
 # (search-loop rule: the loop breaks exactly on the elements the predicate selects, other elements change nothing; the
 #  net effect is the loop body executed once on the first matching element, at an unknown position)
-from contracts.lib import first_index, seq_at, seq_remove_at, seq_replace_at  # noqa: E402
+from contracts.lib import first_index, seq_at, seq_map, seq_remove_at, seq_replace_at  # noqa: E402
 
 
 def light_col(G, name):
@@ -446,3 +446,65 @@ class AlterRenameColumnsAnyLength:
             col["name"] = ren["to"]
             self_.columns = seq_replace_at(self_.columns, i, col)
         self_.alter["renamed_columns"] = [ren]
+
+
+def flag_unique_exact(names):
+    def f(c):
+        if len(names) == 1 and c["name"] == names[0]:
+            r = dict(c)
+            r["unique"] = True
+            return r
+        return c
+    return f
+
+
+def set_default_exact(names, value):
+    def f(c):
+        for n in names:
+            if c["name"] == n:
+                r = dict(c)
+                r["default"] = value
+                return r
+        return c
+    return f
+
+
+@contract
+class UniqueFromAlter:
+    """ALTER TABLE t ADD UNIQUE (col): a single-column unique flags that column, a multi-column one flags none"""
+    fn = "output.base_data.BaseData.set_unique_columns_from_alter"
+    props = ["C04", "C02"]
+    cases = {"one column": dict(n=1), "two columns": dict(n=2)}
+    loops = {"output.base_data.BaseData.set_unique_columns_from_alter#0": dict(inv="inv_cols", temps=["column", "column_name"], reads=["statement"])}
+
+    def build(G, case):
+        t = G.obj("BaseData", columns=G.oseq("cols", elem=light_col), alter={}, primary_key=[], table_name=G.str("t", NAME), schema=None)
+        st = {"unique": {"constraint_name": None, "columns": [G.str("u%d" % i, NAME) for i in range(case["n"])]}, "alter_table_name": G.str("t", NAME), "schema": None}
+        return dict(args=[t, st])
+
+    def inv_cols(case, pre, rest, entry):
+        return {"self.columns": seq_map(flag_unique_exact(entry["statement"]["unique"]["columns"]), pre) + rest}
+
+    def spec(case, self_, statement):
+        self_.columns = seq_map(flag_unique_exact(statement["unique"]["columns"]), self_.columns)
+
+
+@contract
+class DefaultFromAlter:
+    """ALTER TABLE t ADD [CONSTRAINT n] DEFAULT v FOR a, b: every listed column gets the default, no other column changes"""
+    fn = "output.base_data.BaseData.set_default_columns_from_alter"
+    props = ["C04"]
+    cases = {"one column": dict(n=1), "two columns": dict(n=2)}
+    loops = {"output.base_data.BaseData.set_default_columns_from_alter#0": dict(inv="inv_cols", temps=["column", "column_name"], reads=["statement"])}
+
+    def build(G, case):
+        t = G.obj("BaseData", columns=G.oseq("cols", elem=light_col), alter={}, primary_key=[], table_name=G.str("t", NAME), schema=None)
+        st = {"default": {"constraint_name": None, "columns": [G.str("d%d" % i, NAME) for i in range(case["n"])], "value": G.str("value")},
+              "alter_table_name": G.str("t", NAME), "schema": None}
+        return dict(args=[t, st])
+
+    def inv_cols(case, pre, rest, entry):
+        return {"self.columns": seq_map(set_default_exact(entry["statement"]["default"]["columns"], entry["statement"]["default"]["value"]), pre) + rest}
+
+    def spec(case, self_, statement):
+        self_.columns = seq_map(set_default_exact(statement["default"]["columns"], statement["default"]["value"]), self_.columns)
